@@ -2478,7 +2478,7 @@ ASSUME_C = [
     "node functions deterministic; alias resolution modelled in the harness",
     "the composed DAG's fresh parameter ids are glue (the model keeps the node's index and makes it a precomputed holder)",
 ]
-reg("C19", ["Props.C19_compose_correct", "VM.needed_closed", "Props.C12_restriction_keeps_values", "VM.C19_original_unchanged", "Props.C01_core"], run_C, ASSUME_C)
+reg("C19", ["Props.C19_compose_correct", "VM.needed_closed", "Props.C12_restriction_keeps_values", "VM.C19_original_unchanged", "Props.C01_core", "Props.C19_compose_return"], run_C, ASSUME_C)
 
 
 # ---------------------------------------------------------------------------------------------
